@@ -137,6 +137,7 @@ def setters(rep, idx):
         ("wishbone/bus:Interface.memory_map", ["memory_map.data_width != self.granularity",
                                              "memory_map.addr_width != max(1, self.addr_width + exact_log2(self.data_width // self.granularity))"]),
     ]
+    from .common import refuses
     for spec, tests in specs:
         fi = idx.find_func(spec, "setter")
         c = get_fn(idx, spec, "setter")
@@ -146,21 +147,16 @@ def setters(rep, idx):
         g = fg.g
         store = [n.id for n in g.nodes if n.kind == "stmt" and isinstance(n.ast, ast.Assign) and fg.text(n.id).startswith("self._memory_map =")]
         if len(store) != 1:
-            rep.bad("C01.5", site, "self._memory_map = memory_map", f"{len(store)} store(s)")
+            rep.unk("C01.5", site, "self._memory_map = memory_map", f"{len(store)} store(s)")
             continue
-        dom = g.dominators()[store[0]]
-        conds = [(c.norm(cond), ln) for cond, gen, ln in c.t.conds]
-        for t in ["not isinstance(memory_map, MemoryMap)"] + tests:
-            want = c.parse(t)
-            hit = [ln for cn, ln in conds if cn == want]
-            node_ok = False
-            for n in g.nodes:
-                if n.kind == "test" and n.lineno in hit and n.id in dom:
-                    # the failing (true) edge raises
-                    succ = [m for m, lab in g.succ[n.id] if lab == "true"]
-                    node_ok = bool(succ) and g.exit.id not in g.reachable(succ)
-            rep.check(node_ok, "C01.5", site, f"setter refuses a map unless not ({t})",
-                      "no such test with a raising edge dominating the store: bus and map geometry could disagree")
+        for t_, exc in [("not isinstance(memory_map, MemoryMap)", "TypeError")] + [(x, "ValueError") for x in tests]:
+            ok, detail = refuses(c, t_, exc)
+            rep.check(ok, "C01.5", site, f"setter refuses a map unless not ({t_})",
+                      detail + ": bus and map geometry could disagree")
+        # every raise point (own or in a validation helper) comes before the store
+        after = g.reachable([store[0]])
+        late = [n.id for n in g.nodes if n.id in after and n.id != store[0] and fg.raises(n.id)]
+        rep.check(not late, "C01.5", site, "every refusal precedes the store", f"raise reachable after the store at line(s) {[g.nodes[x].lineno for x in late]}")
         rep.check(c.stores.get("self._memory_map", (None,))[0] == ('name', 'memory_map'), "C01.5", site, "the map stored is the map checked",
                   "stored value differs", nontrivial=False)
 
